@@ -297,3 +297,61 @@ pub fn board_status_reads() {
     assert!(bus.read(0xF3) == p.daisr, "F3 = DAISR");
     kani::cover!(true, "reached");
 }
+
+/// The `Machine`-level board setters are the board setters (external input changes enter the
+/// board through them) and touch nothing but the board.
+#[cfg_attr(kani, kani::proof)]
+pub fn machine_board_setters_delegate() {
+    let mut m = any_machine();
+    let pre = m.clone();
+    let op: u8 = kani::any();
+    kani::assume(op < 9);
+    let byte: u8 = kani::any();
+    let level: bool = kani::any();
+    let volt = f32_any();
+    let mut expect = pre.bus().board().clone();
+    match op {
+        0 => {
+            m.set_digital_input1(byte);
+            expect.set_digital_input1(byte)
+        }
+        1 => {
+            m.set_temp(volt);
+            expect.set_temp(volt)
+        }
+        2 => {
+            m.set_jumper1(level);
+            expect.set_jumper1(level)
+        }
+        3 => {
+            m.set_jumper2(level);
+            expect.set_jumper2(level)
+        }
+        4 => {
+            m.set_analog_input1(volt);
+            expect.set_analog_input1(volt)
+        }
+        5 => {
+            m.set_analog_input2(volt);
+            expect.set_analog_input2(volt)
+        }
+        6 => {
+            m.set_universal_input_output1(level);
+            expect.set_universal_input_output1(level)
+        }
+        7 => {
+            m.set_universal_input_output2(level);
+            expect.set_universal_input_output2(level)
+        }
+        _ => {
+            m.set_universal_input_output3(level);
+            expect.set_universal_input_output3(level)
+        }
+    }
+    assert!(same_board(m.bus().board(), &expect), "Machine setter == board setter");
+    assert!(same_bus_regs(m.bus(), pre.bus()), "bus registers untouched");
+    assert!(same_core(&m, &pre) && same_limits(&m, &pre), "CPU untouched");
+    let i = any_ram_index();
+    assert!(m.bus().memory()[i] == pre.bus().memory()[i], "RAM untouched");
+    kani::cover!(op == 8, "uio3");
+}
